@@ -831,5 +831,198 @@ Section Wf.
         | intros _ _; lia
         | intros Hc _; exact (q_st _ _ _ Hqs Hc Ehs) ]).
     Qed.
+
+    (* ---------------------------------------------------------- AnyNumberOf *)
+    Lemma has_match_unparsable a b : a < b -> has_match (unparsable g a b) = true.
+    Proof. intro H. unfold has_match, unparsable. cbn. destruct (N.eqb_spec a b); [lia|reflexivity]. Qed.
+
+    Lemma is_empty_span idx len a : A idx len a -> mr_is_empty a = true -> codeat idx -> mr_end a = idx.
+    Proof.
+      intros Ha He Hc. rewrite is_empty_has_match in He. apply negb_true_iff in He.
+      apply has_match_false in He as [He _]. rewrite <- He. exact (a_st _ _ _ Ha Hc).
+    Qed.
+
+    Lemma parse_mode_result_wf len cur mx mode idx r :
+      A idx len cur -> B idx mx cur -> mx <= len -> len <= n ->
+      parse_mode_result g toks len cur mx mode = ROk r -> Q idx len r.
+    Proof.
+      unfold parse_mode_result. intros Hc Hb Hmx Hl H.
+      destruct (pmode_eqb mode Strict); [inversion H; subst; apply A_Q; exact Hc|].
+      destruct (mr_end cur =? mx); [inversion H; subst; apply A_Q; exact Hc|].
+      inv_bind H. destruct a; [inversion H; subst; apply A_Q; exact Hc|].
+      inv_bind H. inversion H; subst. rename a into t.
+      unfold all_noncode in Ha. destruct ((mr_end cur <=? mx) && (mx <=? len)); [|discriminate].
+      assert (Ht : t < mx) by (eapply noncode_false_skip; [exact Ha|exact Hmx|exact Ha0]).
+      pose proof (skip_fwd_spec toks _ _ _ _ Ha0) as [T1 _].
+      apply A_Q. apply A_append; auto.
+      - apply wf_unparsable; lia.
+      - intros c [].
+      - apply has_match_unparsable. exact Ht.
+      - cbn. lia.
+      - intros Hcd He. cbn. pose proof (is_empty_span _ _ _ Hc He Hcd) as Ee.
+        rewrite Ee in Ha0. apply (skip_fwd_code _ _ _ _ Hcd Ha0).
+    Qed.
+
+    Lemma any_loop_wf k : forall d len idx mx terms nm cs mi wi matched r,
+      idx <= mx -> mx <= len -> len <= n -> A idx len matched -> B idx mx matched ->
+      mi = mr_end matched -> mi <= wi ->
+      (codeat idx -> mr_is_empty matched = true -> wi = idx) ->
+      any_loop g toks rec k d len idx mx terms nm cs mi wi matched = ROk r -> Q idx len r.
+    Proof.
+      induction k as [|k IH]; intros d len idx mx terms nm cs mi wi matched r Hi Hmx Hl Ha Hb Hmi Hwi Hst H;
+        cbn [any_loop] in H; [discriminate|].
+      destruct (((an_min d <=? nm) && (mx <=? mi)) || opt_le (an_max d) nm);
+        [eapply parse_mode_result_wf; eassumption|].
+      destruct (mx <=? mi); [inversion H; subst; apply Q_empty; lia|].
+      inv_bind H. destruct a as [m mo].
+      destruct (negb (has_match m)) eqn:Ehm.
+      - eapply parse_mode_result_wf; [| |exact Hmx|exact Hl|exact H].
+        + destruct (nm <? an_min d); [apply A_empty; lia|exact Ha].
+        + destruct (nm <? an_min d); [apply B_empty; exact Hi|exact Hb].
+      - apply negb_false_iff in Ehm.
+        destruct mo as [o|]; [|discriminate].
+        inv_bind H. destruct (bump a cs) as [cs' cnt].
+        destruct (match cnt with Some c => opt_lt (an_max_per d) c | None => false end);
+          [eapply parse_mode_result_wf; eassumption|].
+        inv_bind H. rename a0 into w'.
+        assert (Hwm : wi <= mx).
+        { apply (longest_match_spec g toks rec HrecB) in Ha0. destruct Ha0 as [->|[Hw _]];
+            [rewrite has_match_empty_lit in Ehm; discriminate|lia]. }
+        apply longest_match_Q in Ha0; [|exact Hwm|lia]. destruct Ha0 as [Hqm Hmm].
+        destruct (Hmm Ehm) as [Hw (M1 & M2 & M3)].
+        assert (Ha' : A idx len (append matched m)).
+        { apply A_append; auto.
+          - exact (q_wf _ _ _ Hqm).
+          - intros c Hc. pose proof (q_ch _ _ _ Hqm c Hc). lia.
+          - pose proof (q_lt _ _ _ Hqm Hw Ehm). lia.
+          - lia.
+          - intros Hc He. rewrite (Hst Hc He) in *. exact (q_st _ _ _ Hqm Hc Ehm). }
+        assert (Hb' : B idx mx (append matched m)).
+        { apply B_append; [exact Hb|unfold B; destruct Hb; lia|lia]. }
+        eapply IH in H; [exact H|exact Hi|exact Hmx|exact Hl|exact Ha'|exact Hb'|reflexivity| |].
+        + destruct (an_gaps d); [apply skip_fwd_spec in Ha2; lia|inversion Ha2; subst; lia].
+        + intros Hc He. pose proof (is_empty_span _ _ _ Ha' He Hc) as Ee. rewrite Ee in Ha2.
+          destruct (an_gaps d); [exact (skip_fwd_code _ _ _ _ Hc Ha2)|inversion Ha2; reflexivity].
+    Qed.
+
+    Lemma match_anynumberof_wf fl d len idx terms m :
+      idx <= len -> len <= n -> match_anynumberof g toks rec fl d len idx terms = ROk m -> Q idx len m.
+    Proof.
+      unfold match_anynumberof. intros Hi Hl H.
+      inv_bind H. destruct a; [inversion H; subst; apply Q_empty; lia|].
+      inv_bind H. inv_bind H. rename a0 into mx.
+      assert (Hmx : idx <= mx /\ (mx <= len \/ pmode_eqb (an_mode d) Greedy = false)).
+      { destruct (pmode_eqb (an_mode d) Greedy); [apply (trim_to_terminator_spec g toks rec HrecB) in Ha1; lia|inversion Ha1; subst; lia]. }
+      inv_bind H. destruct (len <? mx) eqn:E; [discriminate|]. b2p.
+      eapply any_loop_wf in H; [exact H|lia|lia|exact Hl|apply A_empty; lia|apply B_empty; lia|reflexivity|cbn; lia|].
+      intros _ _. reflexivity.
+    Qed.
+
+    (* ---------------------------------------------------------- Delimited *)
+    (** what is known of the remembered delimiter match while it is fresh ([seeking = false]) *)
+    Definition DM (idx len w : N) (wm x : mr) : Prop :=
+      wf n x = true /\ (forall c, In c (mr_ch x) -> mr_start c < len) /\ has_match x = true /\
+      mr_start x < len /\ B idx len x /\ mr_end wm <= mr_start x /\ w = mr_end x /\
+      (codeat idx -> mr_is_empty wm = true -> mr_start x = idx).
+
+    Lemma DM_append idx len w wm x :
+      A idx len wm -> B idx len wm -> DM idx len w wm x ->
+      A idx len (append wm x) /\ B idx len (append wm x) /\ mr_end (append wm x) = w.
+    Proof.
+      intros Ha Hb (D1 & D2 & D3 & D4 & D5 & D6 & D7 & D8). split; [|split].
+      - apply A_append; auto.
+      - apply B_append; assumption.
+      - rewrite append_end_r; auto.
+    Qed.
+
+    Lemma delim_finish_wf tr mn idx len sk dm dl w wm r :
+      idx <= len -> len <= n -> A idx len wm -> B idx len wm ->
+      (forall x, dm = Some x -> sk = false -> DM idx len w wm x) ->
+      delim_finish tr mn idx sk dm dl wm = ROk r -> Q idx len r.
+    Proof.
+      unfold delim_finish. intros Hi Hl Ha Hb Hd H.
+      destruct dm as [x|].
+      - destruct (tr && negb sk) eqn:E.
+        + apply andb_true_iff in E as [_ E]. apply negb_true_iff in E.
+          destruct (DM_append _ _ _ _ _ Ha Hb (Hd x eq_refl E)) as (X1 & _ & _).
+          destruct (dl + 1 <? mn); inversion H; subst; [apply Q_empty; lia|apply A_Q; exact X1].
+        + destruct (dl <? mn); inversion H; subst; [apply Q_empty; lia|apply A_Q; exact Ha].
+      - destruct (dl <? mn); inversion H; subst; [apply Q_empty; lia|apply A_Q; exact Ha].
+    Qed.
+
+    Lemma delim_loop_wf k : forall d delim tr mn len idx terms tms dl sk w wm dm r,
+      idx <= w -> w <= len -> len <= n -> A idx len wm -> B idx len wm -> mr_end wm <= w ->
+      (forall x, dm = Some x -> sk = false -> DM idx len w wm x) ->
+      (sk = true -> w = mr_end wm) ->
+      (sk = false -> dm = None -> w = idx) ->
+      delim_loop g toks rec k d delim tr mn len idx terms tms dl sk w wm dm = ROk r -> Q idx len r.
+    Proof.
+      induction k as [|k IH]; intros d delim tr mn len idx terms tms dl sk w wm dm r
+        Hw Hl Hln Ha Hb Hew Hdm Hsk Hinit H; cbn [delim_loop] in H; [discriminate|].
+      assert (Hfin : forall r', delim_finish tr mn idx sk dm dl wm = ROk r' -> Q idx len r').
+      { intros r' Hf. eapply delim_finish_wf; [| | | |exact Hdm|exact Hf]; auto; lia. }
+      inv_bind H. rename a into w'.
+      assert (Hw' : w <= w' /\ w' <= len /\ (w = idx -> w' = idx) /\ (codeat w -> w' = w)).
+      { destruct (an_gaps d && (idx <? w)) eqn:E.
+        - pose proof (skip_fwd_spec toks _ _ _ _ Ha0) as [X1 X2]. repeat split; try lia.
+          + intros ->. apply andb_true_iff in E as [_ E]. b2p. lia.
+          + intro Hc. exact (skip_fwd_code _ _ _ _ Hc Ha0).
+        - inversion Ha0; subst. repeat split; auto; lia. }
+      destruct Hw' as (W1 & W2 & W3 & W4).
+      destruct (len <=? w'); [apply Hfin; exact H|].
+      inv_bind H. destruct a as [tm tmo]. destruct (has_match tm); [apply Hfin; exact H|].
+      inv_bind H. destruct a as [m mo].
+      destruct (negb (has_match m)) eqn:Ehm; [apply Hfin; exact H|].
+      apply negb_false_iff in Ehm.
+      apply longest_match_Q in Ha2; [|exact W2|exact Hln]. destruct Ha2 as [Hqm Hmm].
+      destruct (Hmm Ehm) as [Hlt (M1 & M2 & M3)].
+      pose proof (q_wf _ _ _ Hqm) as Hwm.
+      pose proof (q_ch _ _ _ Hqm) as Hcm.
+      pose proof (q_lt _ _ _ Hqm Hlt Ehm) as Hsm.
+      destruct sk.
+      - (* the match is a delimiter: remember it *)
+        specialize (Hsk eq_refl).
+        eapply IH in H; [exact H|lia|lia|exact Hln|exact Ha|exact Hb|lia| | |].
+        + intros x Hx _. inversion Hx; subst x. unfold DM. repeat split; auto; try lia.
+          intros Hc He. pose proof (is_empty_span _ _ _ Ha He Hc) as Ee.
+          assert (w = idx) by lia. rewrite (W3 H0) in *. exact (q_st _ _ _ Hqm Hc Ehm).
+        + discriminate.
+        + intros _ Hx. discriminate.
+      - (* the match is an element *)
+        destruct dm as [x|].
+        + destruct (DM_append _ _ _ _ _ Ha Hb (Hdm x eq_refl eq_refl)) as (X1 & X2 & X3).
+          assert (Ha2 : A idx len (append (append wm x) m)).
+          { apply A_append; auto; try lia.
+            intros Hc He. pose proof (is_empty_span _ _ _ X1 He Hc) as Ee.
+            assert (w = idx) by lia. rewrite (W3 H0) in *. exact (q_st _ _ _ Hqm Hc Ehm). }
+          assert (Hb2 : B idx len (append (append wm x) m)).
+          { apply B_append; [exact X2|unfold B; destruct Hb; lia|lia]. }
+          eapply IH in H; [exact H|lia|lia|exact Hln|exact Ha2|exact Hb2| | | |].
+          * rewrite append_end_r; auto. lia.
+          * intros y _ Hy. discriminate.
+          * intros _. rewrite append_end_r; auto.
+          * discriminate.
+        + specialize (Hinit eq_refl eq_refl). rewrite (W3 Hinit) in *.
+          assert (Ha2 : A idx len (append wm m)).
+          { apply A_append; auto; try lia.
+            intros Hc _. exact (q_st _ _ _ Hqm Hc Ehm). }
+          assert (Hb2 : B idx len (append wm m)).
+          { apply B_append; [exact Hb|unfold B; destruct Hb; lia|lia]. }
+          eapply IH in H; [exact H|lia|lia|exact Hln|exact Ha2|exact Hb2| | | |].
+          * rewrite append_end_r; auto. lia.
+          * intros y Hy. discriminate.
+          * intros _. rewrite append_end_r; auto.
+          * discriminate.
+    Qed.
+
+    Lemma match_delimited_wf fl d delim tr mn len idx terms m :
+      idx <= len -> len <= n -> match_delimited g toks rec fl d delim tr mn len idx terms = ROk m -> Q idx len m.
+    Proof.
+      unfold match_delimited. intros Hi Hl H.
+      eapply delim_loop_wf in H; [exact H|lia|exact Hi|exact Hl|apply A_empty; lia|apply B_empty; exact Hi|cbn; lia| | |].
+      - intros x Hx. discriminate.
+      - discriminate.
+      - reflexivity.
+    Qed.
   End WithRec.
 End Wf.
